@@ -589,20 +589,6 @@ theorem Inv.push {E C fs base} (hinv : Inv E C fs base) (F : Fr) (ts : List Ty) 
     | nil => simp at hF0
     | cons a fs => simpa using hF0
 
-/-- the code emitted at the `end` of a block -/
-def blockTail (id h : Nat) (bt : Option Ty) (body : List FI) (rh : Option Nat) : List SymOp :=
-  match rh with
-  | some h' => emitDrop (dropRange ⟨.block, id, h, arity bt⟩ true h') ++
-      (if targetsS 0 body then [.br ⟨.cont, id⟩, .label ⟨.cont, id⟩] else [])
-  | none => [.label ⟨.cont, id⟩]
-
-theorem lowerI_block (fs : List Fr) (h next : Nat) (bt : Option Ty) (body : List FI) :
-    (lowerI fs h next (.block bt body)).ops =
-      (lowerS (⟨.block, next + 1, h, arity bt⟩ :: fs) h (next + 1) body).ops ++
-        blockTail (next + 1) h bt body (lowerS (⟨.block, next + 1, h, arity bt⟩ :: fs) h (next + 1) body).h := by
-  simp only [lowerI, blockTail]
-  cases (lowerS (⟨.block, next + 1, h, arity bt⟩ :: fs) h (next + 1) body).h <;> rfl
-
 /-- what `block` does with the outcome of its body (`hgt`: stack height at entry) -/
 def catchBlock (ar hgt : Nat) : Ctl × Frame × Store → Ctl × Frame × Store
   | (.br 0, fr', st') =>
@@ -768,32 +754,6 @@ theorem Sim.prepend {E : Env} {C fs base res tg budget S0 S0' pcEnd out k0}
     (hr : Reach E.code k0 S0' S0) (h : Sim E C fs base res tg budget S0 pcEnd out) :
     Sim E C fs base res tg budget S0' pcEnd out := Sim.prepend' hr (by omega) h
 
-def iteMid (F : Fr) (id : Nat) (rh : Option Nat) : List SymOp :=
-  match rh with
-  | some h' => emitDrop (dropRange F false h') ++ [.br ⟨.cont, id⟩, .label ⟨.els, id⟩]
-  | none => [.label ⟨.els, id⟩]
-
-def iteTail (F : Fr) (id : Nat) (rh : Option Nat) : List SymOp :=
-  match rh with
-  | some h' => emitDrop (dropRange F true h') ++ [.br ⟨.cont, id⟩, .label ⟨.cont, id⟩]
-  | none => [.label ⟨.cont, id⟩]
-
-theorem lowerI_ite (fs : List Fr) (h next : Nat) (bt : Option Ty) (th el : List FI) :
-    (lowerI fs h next (.ite bt th el)).ops =
-      [.brIf ⟨.header, next + 1⟩ ⟨.els, next + 1⟩ none, .label ⟨.header, next + 1⟩] ++
-        (lowerS (⟨.ite, next + 1, h - 1, arity bt⟩ :: fs) (h - 1) (next + 1) th).ops ++
-        iteMid ⟨.ite, next + 1, h - 1, arity bt⟩ (next + 1)
-          (lowerS (⟨.ite, next + 1, h - 1, arity bt⟩ :: fs) (h - 1) (next + 1) th).h ++
-        (lowerS (⟨.ite, next + 1, h - 1, arity bt⟩ :: fs) (h - 1)
-          (lowerS (⟨.ite, next + 1, h - 1, arity bt⟩ :: fs) (h - 1) (next + 1) th).next el).ops ++
-        iteTail ⟨.ite, next + 1, h - 1, arity bt⟩ (next + 1)
-          (lowerS (⟨.ite, next + 1, h - 1, arity bt⟩ :: fs) (h - 1)
-            (lowerS (⟨.ite, next + 1, h - 1, arity bt⟩ :: fs) (h - 1) (next + 1) th).next el).h := by
-  simp only [lowerI, iteMid, iteTail]
-  cases (lowerS (⟨.ite, next + 1, h - 1, arity bt⟩ :: fs) (h - 1) (next + 1) th).h <;>
-    cases (lowerS (⟨.ite, next + 1, h - 1, arity bt⟩ :: fs) (h - 1)
-      (lowerS (⟨.ite, next + 1, h - 1, arity bt⟩ :: fs) (h - 1) (next + 1) th).next el).h <;> rfl
-
 theorem ite_nop (id g : Nat) (bt : Option Ty) (isEnd : Bool) :
     dropRange ⟨.ite, id, g, arity bt⟩ isEnd (g + arity bt) = none := by
   unfold dropRange; simp; omega
@@ -947,20 +907,6 @@ theorem sim_ite (E : Env) (n : Nat) (bt : Option Ty) (th el : List FI) (hS : PSe
   · cases hc
 
 /-! ### loop -/
-
-def loopTail (F : Fr) (id : Nat) (rh : Option Nat) : List SymOp :=
-  match rh with
-  | some h' => emitDrop (dropRange F true h')
-  | none => [.label ⟨.cont, id⟩]
-
-theorem lowerI_loop (fs : List Fr) (h next : Nat) (bt : Option Ty) (body : List FI) :
-    (lowerI fs h next (.loop bt body)).ops =
-      [.br ⟨.header, next + 1⟩, .label ⟨.header, next + 1⟩] ++
-        (lowerS (⟨.loop, next + 1, h, arity bt⟩ :: fs) h (next + 1) body).ops ++
-        loopTail ⟨.loop, next + 1, h, arity bt⟩ (next + 1)
-          (lowerS (⟨.loop, next + 1, h, arity bt⟩ :: fs) h (next + 1) body).h := by
-  simp only [lowerI, loopTail]
-  cases (lowerS (⟨.loop, next + 1, h, arity bt⟩ :: fs) h (next + 1) body).h <;> rfl
 
 theorem execInstr_loop (m : Module) (n : Nat) (body : List Instr) (fr : Frame) (st : Store) :
     execInstr m (n + 1) (.loop body) fr st =
